@@ -292,10 +292,16 @@ def coq_eval_mismatches(name, header, case_terms, eq_fn, model_fn, case_type, sh
     shards = [case_terms[i:i + shard_size] for i in range(0, len(case_terms), shard_size)]
 
     def one(k):
-        body = [header, "Open Scope %s." % scope,
-                "Definition cases : list (%s) := [" % case_type]
-        body.append(";\n".join("(%s, %s)" % (a, b) for a, b in shards[k]))
-        body.append("].")
+        body = [header, "Open Scope %s." % scope]
+        chunk = 20   # long list literals overflow coqc's stack; build the case list from small chunks
+        names = []
+        for ci in range(0, len(shards[k]), chunk):
+            nm = "cases_%d" % (ci // chunk)
+            names.append(nm)
+            body.append("Definition %s : list (%s) := [" % (nm, case_type))
+            body.append(";\n".join("(%s, %s)" % (a, b) for a, b in shards[k][ci:ci + chunk]))
+            body.append("].")
+        body.append("Definition cases : list (%s) := List.concat [%s]." % (case_type, "; ".join(names)))
         body.append("Fixpoint mism {A B} (f : A -> B -> bool) (l : list (A * B)) (i : N) : list N :=\n"
                     "  match l with [] => [] | (a, b) :: r => if f a b then mism f r (i + 1)%N else i :: mism f r (i + 1)%N end.")
         body.append("Definition result := mism (fun a b => %s (%s a) b) cases 0%%N." % (eq_fn, model_fn))
@@ -378,7 +384,7 @@ class Ctx:
         return {k["class"]: k for k in self.known if "class" in k}
 
     # -- legs
-    def proof_leg(self, targets, pinfile, thorough_coqchk=True):
+    def proof_leg(self, targets, pinfile, thorough_coqchk=True, k_targets=()):
         """P: translator, make, forbidden-command grep, pinned statements, Print Assumptions allow-list."""
         p = {"obligations": 0, "discharged": 0, "theorems": [], "axioms": {}, "checker_cmd":
              "python3 tools/gen_tables.py && (cd coq && coq_makefile -f _CoqProject -o Makefile && make %s) && coqc pins/%s.v + Print Assumptions"
@@ -393,12 +399,12 @@ class Ctx:
             self.model_ok = False
             return p
         p["translator"] = stats
-        ok, log = coq_make(targets)
+        ok, log = coq_make(list(targets) + list(k_targets))
         if not ok:
             # which file failed?  try the model files alone so that K can still run
             m = re.findall(r'File "\./([^"]+)", line (\d+)', log)
             self.broke("P", "coq-build:" + (m[-1][0] if m else "?"), log[-3000:])
-            model_targets = [t for t in self.model_targets(targets)]
+            model_targets = [t for t in self.model_targets(list(targets) + list(k_targets))] + list(k_targets)
             ok2, _ = coq_make(model_targets) if model_targets else (False, "")
             self.model_ok = ok2
             return p
